@@ -33,6 +33,7 @@ type Directives struct {
 	Opt               bool   // opt: reply carries an OPT with options
 	NsTTL             int64  // nsttl<N>: TTL of the authority and additional records (-1 = same rule as the answers)
 	Pad               int    // pad<N>: one extra TXT answer with exactly N octets of text (N <= 255): response sizes in 1-byte steps
+	NoQ               bool   // noq: the reply has no question section (QDCOUNT 0), as some servers and middle boxes send it
 	QR0               bool   // qr0: the reply has the QR bit clear (what a gateway that echoes the request, or a captive portal, sends)
 	AA, AD            bool   // aa / ad: the reply has the AA / AD flag set (an authoritative / validating upstream)
 	Fat               bool   // fat (with uexact<N>): the padding goes into the first answer record itself - one TXT record with up to 64 KiB
@@ -79,6 +80,9 @@ func ParseDirectives(firstLabel string) Directives {
 			continue
 		case "qr0":
 			d.QR0 = true
+			continue
+		case "noq":
+			d.NoQ = true
 			continue
 		case "aa":
 			d.AA = true
@@ -212,6 +216,9 @@ func BuildReply(name string, qtype, qclass uint16, tag string, serial uint32, d 
 	m.RecursionDesired = true
 	m.Authoritative, m.AuthenticatedData = d.AA, d.AD
 	m.Question = []dns.Question{{Name: name, Qtype: qtype, Qclass: qclass}}
+	if d.NoQ {
+		m.Question = nil
+	}
 	class := qclass
 	if class == dns.ClassANY || class == dns.ClassNONE || class == 0 {
 		class = dns.ClassINET
